@@ -20,16 +20,25 @@ RULE = ('plugin kinds: resource provider, decorator, logger, span processor, met
         'log_tracepoint, create_span, span.close, metric op, shutdown) raises once; non-trivial = the fault was actually reached and at '
         'least one other plugin was present')
 ASSUMPTIONS = ['faults are Exception subclasses raised by a concrete plugin method (every reported failure is realisable)',
-               'built-in plugins are switched off (one separate row loads them as shipped); order()/is_active() failures are outside the statement',
+               'built-in plugins are switched off (one separate row loads them as shipped); a plugin whose order() fails may be skipped or placed anywhere, the rest must load in order',
                'the failing plugin\'s own later calls are don\'t-cares']
 
 KINDS = ['ResA', 'DecoA', 'LoggerA', 'SpanA', 'MetricA', 'AllInOne', 'Missing', 'CtorRaises', 'SwitchedOff']
+ACTIVATION = ['OnBool', 'OnInt', 'OnText', 'OffBool', 'OffInt', 'OrderRaises']
 ORDERS = ['asc', 'desc', 'equal', 'none']
 PATHS = {'ResA': 'mc.plugs.ResA', 'DecoA': 'mc.plugs.DecoA', 'LoggerA': 'mc.plugs.LoggerA', 'SpanA': 'mc.plugs.SpanA', 'MetricA': 'mc.plugs.MetricA',
          'AllInOne': 'mc.plugs.AllInOne', 'Missing': 'no.such.module.Plugin', 'CtorRaises': 'mc.plugs.DecoB', 'SwitchedOff': 'mc.plugs.DefaultActivation',
-         'SpanB': 'mc.plugs.SpanB', 'MetricB': 'mc.plugs.MetricB', 'ResB': 'mc.plugs.ResB', 'SwitchedOff2': 'mc.plugs.DefaultActivation2'}
-LIVE = {'ResA', 'DecoA', 'LoggerA', 'SpanA', 'MetricA', 'AllInOne', 'SpanB', 'MetricB', 'ResB'}
+         'SpanB': 'mc.plugs.SpanB', 'MetricB': 'mc.plugs.MetricB', 'ResB': 'mc.plugs.ResB', 'SwitchedOff2': 'mc.plugs.DefaultActivation2',
+         'OnBool': 'mc.plugs.DefaultActivation3', 'OnInt': 'mc.plugs.DefaultActivation3', 'OnText': 'mc.plugs.DefaultActivation3',
+         'OffBool': 'mc.plugs.DefaultActivation4', 'OffInt': 'mc.plugs.DefaultActivation4', 'OrderRaises': 'mc.plugs.OrderRaises'}
+LIVE = {'ResA', 'DecoA', 'LoggerA', 'SpanA', 'MetricA', 'AllInOne', 'SpanB', 'MetricB', 'ResB', 'OnBool', 'OnInt', 'OnText'}
+SWITCH = {'OnBool': ('PLUGIN_DEFAULTACTIVATION3', True), 'OnInt': ('PLUGIN_DEFAULTACTIVATION3', 1), 'OnText': ('PLUGIN_DEFAULTACTIVATION3', 'True'),
+          'OffBool': ('PLUGIN_DEFAULTACTIVATION4', False), 'OffInt': ('PLUGIN_DEFAULTACTIVATION4', 0)}
 PROGRAM = 'def f():\n    x = 1\n    y = 2\n    return x + y\n'
+
+
+class HardStop(BaseException):
+    pass
 
 
 def bounds(tier):
@@ -47,9 +56,15 @@ def cases(tier, seed):
              # runs of plugins that are skipped (switched off / failing to construct / missing) next to each other
              ('SwitchedOff', 'SwitchedOff2'), ('SwitchedOff', 'SwitchedOff2', 'DecoA'), ('DecoA', 'SwitchedOff', 'SwitchedOff2'),
              ('SwitchedOff2', 'SwitchedOff', 'LoggerA'), ('CtorRaises', 'SwitchedOff', 'SwitchedOff2'), ('Missing', 'SwitchedOff', 'SwitchedOff2')]
+    # how a plugin is switched on/off in code (text, bool, int), and a plugin whose order() fails: each alone and next to two live ones
+    for a in ACTIVATION:
+        sets += [(a,), (a, 'DecoA'), ('LoggerA', a, 'DecoA')]
     for s in sets:
         for o in ORDERS if len(s) > 1 else ['asc']:
             out.append({'set': list(s), 'orders': o})
+    # failures that are not Exceptions (asyncio.CancelledError, SystemExit ... are BaseExceptions): every seam of some representative sets
+    for s in (('DecoA', 'LoggerA'), ('ResA', 'ResB'), ('SpanA', 'MetricA'), ('AllInOne', 'DecoA')):
+        out.append({'set': list(s), 'orders': 'asc', 'exc': 'base'})
     out.append({'k': 'builtins'})
     return out
 
@@ -75,7 +90,7 @@ def scenario(desc, fault_at=None, fault_pair=None):
         cls = PATHS[n].rsplit('.', 1)[1]
         plugs.SCRIPT[cls] = {'order': o, 'ctor_raises': n == 'CtorRaises'}
     j.fault_at = fault_at
-    j.fault_exc = RuntimeError('injected plugin failure')
+    j.fault_exc = RuntimeError('injected plugin failure') if desc.get('exc') != 'base' else HardStop('injected hard plugin failure')
     j.fault_pair = fault_pair
     ns, path = rig.load_program('c20prog', PROGRAM)
 
@@ -89,6 +104,9 @@ def scenario(desc, fault_at=None, fault_pair=None):
         custom['PLUGIN_DEFAULTACTIVATION'] = 'False'
     if 'SwitchedOff2' in names:
         custom['PLUGIN_DEFAULTACTIVATION2'] = 'false'
+    for n in names:
+        if n in SWITCH:
+            custom[SWITCH[n][0]] = SWITCH[n][1]
     obs = {'start_exc': None, 'shutdown_exc': None, 'escaped': [], 'loaded': None}
     with rig.DeepWorld(custom=custom, channel=chan) as w:
         try:
@@ -169,6 +187,8 @@ def run_case(ctx, desc):
     if base['start_exc'] or base['shutdown_exc'] or base['escaped']:
         ctx.violation('C20/fault-free-run-failed', f'{label}: start={base["start_exc"]} shutdown={base["shutdown_exc"]} escaped={base["escaped"][:1]}', desc)
         return
+    if 'OrderRaises' in names:
+        base['loaded'] = [p for p in base['loaded'] if p != 'OrderRaises']      # where (and whether) the plugin without an order lands is not defined
     if base['loaded'] != exp_loaded:
         feat = 'order' if sorted(base['loaded']) == sorted(exp_loaded) else 'membership'
         ctx.violation(f'C20/load-plugins/{feat}', f'{label}: loaded {base["loaded"]}, expected {exp_loaded}', desc)
@@ -229,7 +249,8 @@ def run_case(ctx, desc):
         # decorations / resource: only the failed contribution may be missing
         ga, gr = attrs_of(obs['sent']), resource_of(obs['polls'])
         if what == 'decorate':
-            own = {'DecoA': ['deco_DecoA'], 'AllInOne': ['deco_all'], 'DecoB': ['deco_DecoB']}.get(who, [])
+            own = {'DecoA': ['deco_DecoA'], 'AllInOne': ['deco_all'], 'DecoB': ['deco_DecoB'], 'DefaultActivation3': ['deco_default3'],
+                   'OrderRaises': ['deco_order_raises'], 'DefaultActivation': ['deco_default']}.get(who, [])
             exp = [{k_: v for k_, v in a.items() if k_ not in own} for a in base_attrs]
         else:
             exp = base_attrs
